@@ -14,24 +14,25 @@ namespace C19Live
 open Stage C19
 
 /-- a failure-free continuation of the base protocol is a continuation of the protocol with failures -/
-theorem lift_run : ∀ (tr : List L) (b0 : S) (f : List Nat) (b : S), run b0 tr = some b →
-    runE { base := b0, failed := f, outcome := none } (tr.map LE.base) = some { base := b, failed := f, outcome := none } := by
+theorem lift_run : ∀ (tr : List L) (b0 : S) (f : List Nat) (lf : Bool) (b : S), run b0 tr = some b →
+    runE { base := b0, failed := f, loadFailed := lf, outcome := none } (tr.map LE.base) =
+      some { base := b, failed := f, loadFailed := lf, outcome := none } := by
   intro tr
   induction tr with
   | nil =>
-    intro b0 f b h
+    intro b0 f lf b h
     simp only [run, Option.some.injEq] at h
     subst h
     rfl
   | cons l ls ih =>
-    intro b0 f b h
+    intro b0 f lf b h
     simp only [run] at h
     cases hst : step b0 l with
     | none => rw [hst] at h; cases h
     | some b1 =>
       rw [hst] at h
       simp only [List.map_cons, runE, stepE, if_true, hst, Option.map_some]
-      exact ih b1 f b h
+      exact ih b1 f lf b h
 
 theorem runE_append : ∀ (t1 t2 : List LE) (a : SE), runE a (t1 ++ t2) = (runE a t1).bind (fun b => runE b t2) := by
   intro t1
@@ -53,11 +54,11 @@ theorem error_reported_eventually (n cap : Nat) (items : List Nat) (hn : 0 < n) 
       s'.outcome = some (decide (s.failed ≠ [])) := by
   have hb : Reachable n cap true items s.base := ⟨tr0.flatMap proj, projects tr0 _ s hr⟩
   obtain ⟨tr, b, hrun, hret, hex, _⟩ := C03Live.stage_progress n cap items hn s.base hb
-  refine ⟨tr.map LE.base ++ [LE.check], { base := b, failed := s.failed, outcome := some (decide (s.failed ≠ [])) }, ?_, rfl, hex, rfl⟩
-  obtain ⟨b0, f, o⟩ := s
+  refine ⟨tr.map LE.base ++ [LE.check], { base := b, failed := s.failed, loadFailed := s.loadFailed, outcome := some (decide (s.failed ≠ [])) }, ?_, rfl, hex, rfl⟩
+  obtain ⟨b0, f, lf, o⟩ := s
   simp only at ho
   subst ho
-  rw [runE_append, lift_run tr b0 f b hrun]
+  rw [runE_append, lift_run tr b0 f lf b hrun]
   simp [runE, stepE, hret]
 
 /-- non-vacuity: worker 0 fails on the first item of a 2-worker stage; the stage can still finish, and raises -/
